@@ -12,7 +12,7 @@ import z3
 from .interp import (PyRaise, NeedFork, Infeasible, is_pynum, kind_of, zof, join_kind, mk, zbool, FP, RNE)
 from .values import (S, VOpt, VQty, VTime, VDelta, VEnum, SEnum, VRec, VRef, HObj, HList, HDict,
                      HSet, SymSeq, SymSet, SymMap, FuncRef, ClassRef, ModRef, ExtRef,
-                     BoundBuiltin, Opaque, Unsupported, fresh_name, zreal, KeySetVal, HKeySet, HOptDict, HSymList)
+                     BoundBuiltin, Opaque, Unsupported, fresh_name, zreal, KeySetVal, HKeySet, HOptDict, HSymList, HSymSet)
 
 BUILTINS = {
     "max", "min", "abs", "len", "sum", "all", "any", "isinstance", "float", "int", "bool", "set",
@@ -228,6 +228,10 @@ def pow_model(it, a, b):
 # ======================================================================== attributes
 
 def getattr_model(it, base, attr):
+    if isinstance(base, VRef):
+        h = it.ctx.deref(base)
+        if isinstance(h, HObj) and h.cls.startswith("ext:") and attr not in h.fields:
+            return BoundBuiltin(attr, base)
     if isinstance(base, VQty):
         if attr == "base_value":
             return base.val
@@ -382,6 +386,15 @@ def call_bound(it, f: BoundBuiltin, args, kwargs):
         raise Unsupported(f"datetime.{name}")
     if isinstance(t, VRef):
         h = it.ctx.deref(t)
+        if isinstance(h, HObj) and h.cls.startswith("ext:"):
+            _use(it, f"model:{h.cls[4:]}.{name}() only has the effect of being called (recorded), result unconstrained")
+            it.ctx.mutate()
+            calls = it.ctx.deref(h.fields["calls"])
+            calls.items.append((name, tuple(args)))
+            rs = h.fields.get("__returns__", {}).get(name)
+            if rs is None:
+                return None
+            return it.engine.make_sym(it.ctx, rs, fresh_name(name))
         if isinstance(h, HList):
             return list_method(it, t, h, name, args, kwargs)
         if isinstance(h, HDict):
@@ -396,6 +409,9 @@ def call_bound(it, f: BoundBuiltin, args, kwargs):
         if isinstance(h, HSymList):
             from . import symlist
             return symlist.method(it, t, h, name, args, kwargs)
+        if isinstance(h, HSymSet):
+            from . import symset
+            return symset.method(it, t, h, name, args, kwargs)
     if isinstance(t, frozenset):
         if name == "union":
             out = set(t)
@@ -883,6 +899,9 @@ def call_builtin(it, name, args, kwargs):
                 return optdict.length(it, h)
             if isinstance(h, HSymList):
                 return mk(h.seq.length, "int")
+            if isinstance(h, HSymSet):
+                from . import symset
+                return symset.length(it, h.val)
             return it.call_method(x, "__len__", [], {})
         if isinstance(x, SymSeq):
             return mk(x.length, "int")
@@ -1021,6 +1040,8 @@ def call_builtin(it, name, args, kwargs):
     if name == "id":
         return Opaque("id")
     if name == "next":
+        if isinstance(args[0], GenExp) and it.engine.genexp_is_symbolic(it, args[0]):
+            return it.engine.fold_symbolic(it, "next", args[0], {"default": args[1]} if len(args) > 1 else {})
         items = it.iterate_concrete(args[0])
         if items:
             return items[0]
